@@ -20,6 +20,7 @@ themselves are generated (extreme-value stream of harness/src/searchprops.rs).
 -/
 import Compass.Model.Search
 import Compass.Gen.Decisions
+import Compass.Gen.Fns
 import Compass.Proofs.Num
 import Compass.Model.Instance
 import Compass.Proofs.SearchLimits
@@ -986,6 +987,36 @@ source's `tentative_gscore < existing_gscore`; with `<=` an equal-cost arrival r
 theorem src_relax_improves {α : Type} [Field α] [LinearOrder α] [IsStrictOrderedRing α] [Lit α] [LawfulLit α] (tent ex : α) :
     some (improves tent (some ex)) = relax_improves.num tent ex := by
   simp [improves, relax_improves, Rel.num]
+
+/-! ### Generated function bodies
+
+`tools/gen_fns.py` re-translates the body of the Rust function on every run into `Compass/Gen/Fns.lean`
+(`Gen.<Type>_<fn>`; conventions in the header of the tool).  Each `gen_*_eq` theorem below says that the
+generated definition *is* the hand-written model function the property theorems are about.  A source
+change to the function changes the generated definition and the proof stops checking (a body the
+translator no longer recognises is not emitted: the theorem no longer elaborates). -/
+
+mutual
+theorem gen_terminate_search_eq (m : TermM) (sz it : Nat) :
+    Gen.TerminationModel_terminate_search m sz it = m.fires sz it := by
+  cases m with
+  | runtime limitNs freq baseNs perNs => simp [Gen.TerminationModel_terminate_search, TermM.fires]
+  | size limit => simp [Gen.TerminationModel_terminate_search, TermM.fires]
+  | iters limit => simp [Gen.TerminationModel_terminate_search, TermM.fires]
+  | combined ms =>
+    simp only [Gen.TerminationModel_terminate_search, TermM.fires]
+    exact gen_terminate_search_fold_eq ms sz it false
+theorem gen_terminate_search_fold_eq (ms : List TermM) (sz it : Nat) (acc : Bool) :
+    Gen.TerminationModel_terminate_search_fold1 sz it ms acc = TermM.fires.firesList ms sz it acc := by
+  cases ms with
+  | nil => simp [Gen.TerminationModel_terminate_search_fold1, TermM.fires.firesList]
+  | cons m ms =>
+    simp only [Gen.TerminationModel_terminate_search_fold1, TermM.fires.firesList]
+    rw [gen_terminate_search_eq m sz it]
+    cases h : m.fires sz it with
+    | none => rfl
+    | some r => exact gen_terminate_search_fold_eq ms sz it (acc || r)
+end
 
 end C10
 end Compass
